@@ -51,7 +51,7 @@ ObsWhys(r) ==
                   isCompleted == want # 0 /\ st.slot[r.id].stage = "result"
               IN (IF RangeOf(r.runs) \ {want} # {} THEN {Tag \o "log show --id shows output left over from another run"} ELSE {})
                  \cup (IF isCompleted /\ (r.rc # 0 \/ RangeOf(r.runs) # {want} \/ ~r.complete)
-                       THEN {"C12:log show --id does not show a retained run's logs"} ELSE {})
+                       THEN {Tag \o "log show --id does not show a retained run's logs"} ELSE {})
     [] r.ev = "ls_runs" ->
          (IF ~(RangeOf(r.dirs) \subseteq 1..N) \/ Len(r.dirs) > N THEN {"C12:more run directories than max_retained_runs"} ELSE {})
          \cup (IF { k \in 1..N : st.slot[k].stage # "absent" } # RangeOf(r.dirs) THEN {Tag \o "run directories differ from the slots in use"} ELSE {})
@@ -61,6 +61,15 @@ ObsWhys(r) ==
 Step(r) ==
   CASE r.ev = "reset" -> st' = Store0(r.n) /\ N' = r.n /\ crashed' = FALSE /\ runs' = <<>> /\ beh' = r.beh
     [] r.ev = "run"   -> RunStep(r)
+    [] r.ev = "out_delete_all" -> /\ Check(IF r.rc # 0 THEN {Tag \o "out delete --all failed"} ELSE {})
+                                  /\ st' = (IF r.rc = 0 THEN OutDeleteAll(st, N) ELSE st) /\ crashed' = FALSE /\ runs' = <<>>
+                                  /\ UNCHANGED <<N, beh>>
+    \* a reader while another invocation is in flight (readers take no lock): the last completed run must still be
+    \* what result show / log show return - the in-flight run has not saved its pointer yet
+    [] r.ev = "inflight_result_show" ->
+          /\ Check(IF st.last = 0 THEN (IF r.rc = 0 THEN {"C13:result show during a run returned a document although no run has completed"} ELSE {})
+                   ELSE IF r.rc # 0 \/ r.run # st.last THEN {"C13:result show during a run does not return the last completed run"} ELSE {})
+          /\ UNCHANGED <<st, N, crashed, runs, beh>>
     [] OTHER          -> Check(ObsWhys(r)) /\ UNCHANGED <<st, N, crashed, runs, beh>>
 
 Next == l <= Len(Rec) /\ Step(Rec[l]) /\ l' = l + 1
